@@ -227,6 +227,19 @@ def carrier_texts() -> list[str]:
     return sorted(set(CARRIERS) | {t for pair in PREFIX_SHARING + ALIASING for t in pair})
 
 
+# far beyond the recursion limit whatever the caller's own depth: the outcome class is stable, and any change
+# that touches the process-wide limit around a parse shows up when parses overlap
+DEEP = ["(" * 200 + "1" + ")" * 200 + "\n", "x = " + "[" * 120 + "]" * 120 + "\n", "f(" * 150 + ")" * 150 + "\n"]
+
+# names that are keywords only in some grammar versions, or only softly
+KEYWORD_NAMES = [
+    "async = 1\n", "print(await)\n", "def async(): pass\n", "await = 2\n", "match = 1\n", "case = 2\n", "type = 3\n",
+    "_ = 4\n", "match x:\n    case _: pass\n", "type X = int\n", "print = 1\n", "exec 'x'\n", "nonlocal x\n",
+    "async def f(): await g()\n", "x = [await y async for y in z]\n",
+]
+PY_VERSIONS = [[3, 0], [3, 5], [3, 6], [3, 7], [3, 8], [3, 9], [3, 10], [3, 11], [3, 12], [3, 13]]
+
+
 def build_pool() -> list[str]:
     """Sorted, de-duplicated pool of texts (valid and invalid) of at most MAX_LEN characters."""
     texts: set[str] = set()
@@ -252,6 +265,7 @@ def build_pool() -> list[str]:
         texts.add(a)
         texts.add(b)
     texts.update(CARRIERS)
+    texts.update(KEYWORD_NAMES)
     return sorted(t for t in texts if _ok_text(t))
 
 
